@@ -31,7 +31,7 @@ type Case struct {
 func genCase(t *rapid.T) Case {
 	var c Case
 	c.GPUType = rapid.SampledFrom([]string{"r9nano", "r9nano", "mi300a"}).Draw(t, "gputype")
-	opts := kgen.GenOpts{MaxItems: 1536, MaxOps: 24, LDS: true, Partial: true, SubDword: true, SBurst: rapid.Bool().Draw(t, "sbursts"), TrailSLoad: true, WaveDep: true}
+	opts := kgen.GenOpts{MaxItems: 1536, MaxOps: 24, LDS: true, Partial: true, SubDword: true, SBurst: rapid.Bool().Draw(t, "sbursts"), TrailSLoad: true, WaveDep: true, SparseWGIDs: true}
 	crowded := rapid.IntRange(0, 3).Draw(t, "crowded") == 0
 	if crowded {
 		// one compute unit with 6-10 resident 256-item groups that exchange data through barriers
